@@ -1,4 +1,5 @@
 """C18 -- Process.current() is the process whose code is running."""
+import asyncio
 import json
 import os
 import subprocess
@@ -25,7 +26,7 @@ RULE += ('; also: coroutine and callable-object callbacks outliving their step, 
 ASSUMPTIONS = ['samples in ProcessListener callbacks are not part of the statement (recorded only)',
                'nested execution relies on nest_asyncio as configured by plumpy.set_event_loop_policy()']
 REQUIRED = ['samples/step', 'samples/hook', 'samples/callback', 'samples/outside', 'concurrent_runs', 'nested_runs', 'children', 'where/after-await',
-            'where/after-launch', 'where/after-nested', 'where/after-inline', 'outside_runner', 'parent_controlled_by_child', 'cleanup_callbacks', 'bound_method_callbacks', 'where/after-collect', 'own_waiting_state_samples', 'falsy_processes', 'where/after-collect-own', 'equal_process_pairs']
+            'where/after-launch', 'where/after-nested', 'where/after-inline', 'outside_runner', 'parent_controlled_by_child', 'cleanup_callbacks', 'bound_method_callbacks', 'where/after-collect', 'own_waiting_state_samples', 'falsy_processes', 'where/after-collect-own', 'equal_process_pairs', 'absorbed_timeouts']
 BOUNDS = {'quick': '150 random concurrent sets + 24 nested scenarios', 'thorough': '1500 random concurrent sets + 200 nested scenarios'}
 TIMEOUT = {'quick': 900, 'thorough': 3600}
 
@@ -95,6 +96,12 @@ def gen_cases(tier, seed):
                 inline_top = [False, True]
             cases.append({'kind': 'concurrent', 'scripts': scripts, 'plan': [], 'qplan': [[-1 if parent_kind != 'top-inline' else 0, a[0]] for a in qplan],
                           'inline_top': inline_top, 'wait': False})
+    # ordinary code steps a process inline under a timeout that fires while a step is suspended (or the process waits), absorbs the
+    # timeout and steps on
+    waiter2 = {'segments': [[['sample', 'a'], ['yield'], ['yield'], ['sample', 'b'], ['wait']], [['sample', 'post-wait'], ['yield'], ['yield'], ['sample', 'c']]], 'sync': False}
+    for at in range(0, 10):
+        cases.append({'kind': 'concurrent', 'scripts': [waiter2, {'segments': [[['yield'], ['sample', 'x'], ['yield']]]}], 'plan': [{'at': at, 'proc': 0, 'act': 'timeout_runner'}],
+                      'inline_top': [True, at % 2 == 0], 'wait': False})
     # a process that is in the middle of a step (suspended in an await, or waiting) is failed from ordinary code / by a raising callback
     stepper_ = {'segments': [[['sample', 'a'], ['yield'], ['yield'], ['yield'], ['sample', 'b']], [['sample', 'c'], ['wait']], [['sample', 'd']]], 'sync': False}
     for at in range(0, 9):
@@ -151,6 +158,7 @@ def _obs(log, outside):
     obs['cleanup_callbacks'] = sum(1 for _n, kind, where, _ok, _c in log if kind == 'callback' and where == 'cleanup')
     obs['bound_method_callbacks'] = sum(1 for _n, kind, where, _ok, _c in log if kind == 'callback' and 'bound-method-of-' in where and not where.endswith('self'))
     obs['outside_runner'] = sum(1 for w, _c in outside if w == 'runner-after')
+    obs['absorbed_timeouts'] = sum(1 for w, _c in outside if w == 'runner-after-timeout')
     obs['parent_controlled_by_child'] = sum(1 for _n, kind, where, _ok, _c in log if kind == 'step' and 'after-parent-' in where)
     obs['own_waiting_state_samples'] = sum(1 for _n, kind, where, _ok, _c in log if kind == 'step' and where.startswith('waiting-state:'))
     obs['falsy_processes'] = sum(1 for n in names if n in curprog.PROCS and len(curprog.PROCS[n]) == 0)
@@ -178,7 +186,18 @@ def run_concurrent(case):
             # ordinary (non-process) code driving a process inline in its own task: sees None before and after
             cur = plumpy.Process.current()
             outside.append(('runner-before', None if cur is None else cur.raw_inputs['name']))
-            await p.step_until_terminated()
+            while True:
+                try:
+                    await p.step_until_terminated()
+                    break
+                except asyncio.CancelledError:
+                    # a timeout around the inline stepping fired (the plan cancelled this task) and was absorbed, as ``asyncio.timeout``
+                    # does: this is ordinary code again, in the same task -- and it goes on stepping the process afterwards
+                    asyncio.current_task().uncancel()
+                    cur = plumpy.Process.current()
+                    outside.append(('runner-after-timeout', None if cur is None else cur.raw_inputs['name']))
+                    if p.has_terminated():
+                        break
             cur = plumpy.Process.current()
             outside.append(('runner-after', None if cur is None else cur.raw_inputs['name']))
 
@@ -194,7 +213,12 @@ def run_concurrent(case):
                 everyone = list(curprog.PROCS.values())
                 p = everyone[e['proc'] % len(everyone)]
                 try:
-                    if e['act'] == 'close_fresh':
+                    if e['act'] == 'timeout_runner':
+                        # the ordinary code that steps a top-level process inline gives up on this attempt (its timeout fires)
+                        idx = e['proc'] % len(tasks)
+                        if inline_top[idx] and not tasks[idx].done():
+                            tasks[idx].cancel()
+                    elif e['act'] == 'close_fresh':
                         curprog.close_fresh('outside.fresh%d' % slot, drv.loop)
                     elif e['act'] == 'soon_bound':
                         # the callback is a bound method of ANOTHER process
